@@ -16,7 +16,9 @@ var caseID int
 
 func emit(c Case) {
 	caseID++
-	c["id"] = caseID
+	if _, ok := c["id"]; !ok {
+		c["id"] = caseID
+	}
 	b, err := json.Marshal(c)
 	if err != nil {
 		panic(err)
@@ -30,10 +32,15 @@ func main() {
 	seed := flag.Uint64("seed", 1, "seed")
 	n := flag.Int("n", 100, "number of cases")
 	profile := flag.String("profile", "general", "history profile")
+	replay := flag.String("replay", "", "file of cases to re-run")
 	flag.Parse()
 	out = bufio.NewWriterSize(os.Stdout, 1<<20)
 	defer out.Flush()
 	r := NewRng(*seed)
+	if *replay != "" {
+		replayCases(*replay)
+		return
+	}
 	switch *kind {
 	case "match":
 		genMatchCases(r, *n)
